@@ -850,7 +850,10 @@ func newSimCtx() *simCtx {
 	return &simCtx{done: make(chan struct{}), dl: time.Now().Add(time.Minute), fns: map[int]func(){}}
 }
 
-func (c *simCtx) Deadline() (time.Time, bool) { return c.dl, true }
+// (No deadline is advertised: the expiry is the racing task's doing, not the
+// clock's, and code that watches an advertised deadline by itself would find it
+// passed on the fake clock while this context still says it has not ended.)
+func (c *simCtx) Deadline() (time.Time, bool) { return time.Time{}, false }
 func (c *simCtx) Done() <-chan struct{}       { return c.done }
 func (c *simCtx) Value(any) any               { return nil }
 func (c *simCtx) Err() error {
